@@ -9,7 +9,8 @@ yet another one while it runs (nested re-entrancy; the last "R" call is found by
 round again as long as new calls were issued behind it).  About 4 % of the calls RAISE
 (PlannedFailure, after recording themselves; the reactor's logged failure is whitelisted), and so
 does every second thread's last call, which is alone in its batch: a failing call must still count
-as run exactly once and must not disturb its neighbours.
+as run exactly once and must not disturb its neighbours.  The argument shape of the calls of one
+thread alternates per call (positional only / keyword only / both / none via functools.partial).
 
 Monitor (log appended under a lock, in practice always from the reactor thread): (tid, seq,
 executing thread ident).  Oracle, evaluated once the per-thread *sentinel* calls have run (a
@@ -37,6 +38,7 @@ Guards: cross-thread order is NOT constrained; batch boundaries are evidence onl
 sentinels do not arrive within the watchdog, a subprocess timeout or a missing reactor type are
 INCONCLUSIVE.
 """
+import functools
 import hashlib
 import random
 import threading
@@ -57,9 +59,9 @@ ASSUMPTIONS = [
 ]
 SHARDS = {"quick": 4, "thorough": 16}
 FLOORS = {
-    "quick": {"calls_executed": 4 * 9000, "idle_calls_measured": 4 * 20, "rounds_decided": 16, "yields_injected": 2000, "reentrant_calls_executed": 100, "raising_calls_executed": 1000, "nested_reentrant_calls_executed": 300,
+    "quick": {"calls_executed": 4 * 9000, "idle_calls_measured": 4 * 20, "rounds_decided": 16, "yields_injected": 2000, "reentrant_calls_executed": 100, "raising_calls_executed": 1000, "nested_reentrant_calls_executed": 300, "calls_with_keyword_arguments": 10000, "asyncio_reactor_rounds": 4,
               "idle_burst_calls_measured": 4 * 400, "shutdown_calls_measured": 4 * 16},
-    "thorough": {"calls_executed": 100000, "idle_calls_measured": 4 * 20, "rounds_decided": 16, "yields_injected": 10000, "reentrant_calls_executed": 500, "raising_calls_executed": 2000, "nested_reentrant_calls_executed": 1000,
+    "thorough": {"calls_executed": 100000, "idle_calls_measured": 4 * 20, "rounds_decided": 16, "yields_injected": 10000, "reentrant_calls_executed": 500, "raising_calls_executed": 2000, "nested_reentrant_calls_executed": 1000, "calls_with_keyword_arguments": 20000, "asyncio_reactor_rounds": 4,
                  "idle_burst_calls_measured": 4 * 400, "shutdown_calls_measured": 4 * 16},
 }
 WATCHDOG_S = {"quick": 600, "thorough": 3000}
@@ -71,6 +73,7 @@ IDLE_REPS = 20
 ROUND_WATCHDOG_S = 60.0
 R_WATCHDOG_S = 20.0
 REENTRANT_EVERY = 17
+SHAPES = ["pos", "kw", "pos", "both", "none", "kw", "kw", "pos"]  # per call: (seq + tid) % 8
 NEST_EVERY = 5
 RAISE_EVERY = 23
 
@@ -178,11 +181,22 @@ def scenario(reactor, inp):
                 elif r < 0.15:
                     time.sleep(0)
                 if seq % REENTRANT_EVERY == 3:
-                    reactor.callFromThread(record_and_spawn, rid, tid, seq)
+                    fn = record_and_spawn
                 elif seq % RAISE_EVERY == 5:
-                    reactor.callFromThread(record_and_raise, rid, tid, seq)
+                    fn = record_and_raise
                 else:
-                    reactor.callFromThread(record, rid, tid, seq)
+                    fn = record
+                # the argument shape varies from call to call within one thread's sequence:
+                # positional only / keyword only / both / none (a reactor must not treat them differently)
+                shape = SHAPES[(seq + tid) % len(SHAPES)]
+                if shape == "pos":
+                    reactor.callFromThread(fn, rid, tid, seq)
+                elif shape == "kw":
+                    reactor.callFromThread(fn, rid=rid, tid=tid, seq=seq)
+                elif shape == "both":
+                    reactor.callFromThread(fn, rid, tid, seq=seq)
+                else:
+                    reactor.callFromThread(functools.partial(fn, rid, tid, seq))
         except BaseException as e:
             errors.append([tid, seq, "%s: %s" % (type(e).__name__, e)])  # list.append: atomic
         # The thread's LAST call (seq == M).  It is issued when the queue is quiet (all producers
@@ -531,7 +545,8 @@ def analyse(log, K, M, reactor_ident):
     lost_r = sorted((k for k, v in expected.items() if v == 0 and k[0] == "R"), key=repr)
     dup = sorted(((k, v) for k, v in expected.items() if v > 1), key=repr)
     raising = sum(1 for (t, q), v in expected.items() if t != "R" and v and ((q < M and q % REENTRANT_EVERY != 3 and q % RAISE_EVERY == 5) or (q == M and t % 2 == 0)))
-    return {"executed": len(log), "planned": len(expected), "raising_executed": raising, "nested_reentrant_planned": n_spawn - n0, "reentrant_executed": sum(v for (t, _), v in expected.items() if t == "R"),
+    kw_calls = sum(1 for (t, q), v in expected.items() if t != "R" and v and q < M and SHAPES[(q + t) % len(SHAPES)] in ("kw", "both"))
+    return {"executed": len(log), "planned": len(expected), "raising_executed": raising, "kw_calls": kw_calls, "nested_reentrant_planned": n_spawn - n0, "reentrant_executed": sum(v for (t, _), v in expected.items() if t == "R"),
             "lost": [list(k) for k in lost[:10]], "n_lost": len(lost),
             "lost_r": [list(k) for k in lost_r[:10]], "n_lost_r": len(lost_r),
             "duplicated": [[list(k), v] for k, v in dup[:10]], "n_dup": len(dup),
@@ -575,6 +590,9 @@ def judge(ctx, name, out):
         ctx.count("calls_executed", rd["executed"])
         ctx.count("reentrant_calls_executed", rd["reentrant_executed"])
         ctx.count("raising_calls_executed", rd["raising_executed"])
+        ctx.count("calls_with_keyword_arguments", rd["kw_calls"])
+        if name == "asyncio":
+            ctx.count("asyncio_reactor_rounds")
         if rd["complete_r"] and not rd["n_lost_r"]:
             ctx.count("nested_reentrant_calls_executed", rd["nested_reentrant_planned"])
         ctx.count("yields_injected", rd["yields"])
